@@ -468,6 +468,8 @@ func (pConn *PFCPConn) handleSessionDeletionRequest(msg message.Message) (messag
 		return sendError(ErrOperationFailedWithReason("session IP dealloc", err.Error()))
 	}
 
+	releaseAllocatedFTEIDs(upf.fteidGenerator, &session)
+
 	/* delete sessionRecord */
 	pConn.RemoveSession(session)
 
@@ -565,6 +567,8 @@ func (pConn *PFCPConn) handleSessionReportResponse(msg message.Message) error {
 		if err := releaseAllocatedIPs(upf.ippool, &sessItem); err != nil {
 			logger.PfcpLog.Errorln("failed to release UE IP of session", seid, err)
 		}
+
+		releaseAllocatedFTEIDs(upf.fteidGenerator, &sessItem)
 
 		pConn.RemoveSession(sessItem)
 
